@@ -79,7 +79,9 @@ CLAIMS['C11'] = dict(
          'screen and the Fresnel coefficients with the perfect-conductor limit v = 1, h = 0; and the complete real-ground computation of '
          'E(theta), E(phi) (both image passes, Fresnel coefficients, summation) with surface impedance 0 equals the ideal-ground '
          'computation on the same symbolic arrays (1 direction x 2 pulses, either end grounded): the limit point of the convergence '
-         'clause. Continuity in the impedance and the rate of convergence are only exercised by the bounded native sweep.',
+         'clause; likewise, splitting the medium at an arbitrary coordinate into two pieces with its constants, or appending a further medium '
+         'whose boundary lies beyond the computed reflection distance, leaves E(theta), E(phi) unchanged (whole branch, 1 direction x 1 pulse, '
+         'linear and circular boundary). Continuity in the impedance and the rate of convergence are only exercised by the bounded native sweep.',
     note='clause-wise claim; call graph by method name and arity (over-approximation); complex sqrt / log uninterpreted; floats as reals',
     design_ref='DESIGN.md §5 C11')
 CLAIMS['C10'] = dict(
